@@ -103,5 +103,7 @@ package absnfs
 
 //@ func NewDirCache
 //@ prop C21
+//@ modifies lmem, lrank, llen
 //@ ensures [nonnil] result != nil && fresh(result)
+//@ ensures [other-lists] listFrame(result.accessList) && fresh(result.accessList)
 //@ ensures [inv] dcInv(result) && len(result.entries) == 0 && result.maxEntries == ite(maxEntries <= 0, 1000, maxEntries) && result.maxDirSize == ite(maxDirSize <= 0, 10000, maxDirSize) && result.timeout == ite(timeout <= 0, 10000000000, timeout)
